@@ -916,6 +916,17 @@ func (t *fn) builtin(x *ast.CallExpr, name string) string {
 		if lt.k != kList {
 			t.reject(x, "append to a non-slice")
 		}
+		// `append(x[:k], …)` on a local x overwrites x's array in place: exact by value only when no
+		// second name still refers to that array (`y := x` before it would see the new elements in Go).
+		if se, ok := ast.Unparen(x.Args[0]).(*ast.SliceExpr); ok {
+			if id, ok2 := ast.Unparen(se.X).(*ast.Ident); ok2 {
+				if o, isVar := t.pkg.info.ObjectOf(id).(*types.Var); isVar && !t.isParam(o) {
+					if r := t.aliasReason(o); r != "" {
+						t.reject(x, "`%s` overwrites the array of `%s` in place while `%s` makes another name refer to it (aliasing)", t.text(x), id.Name, r)
+					}
+				}
+			}
+		}
 		s := t.ex(x.Args[0])
 		if len(x.Args) == 1 {
 			return s
@@ -3967,4 +3978,15 @@ func (t *fn) declareGlobals(out *FuncResult) []string {
 		t.notes = append(t.notes, note)
 	}
 	return params
+}
+
+// isParam: o is a parameter (or the receiver) of the function being translated.
+func (t *fn) isParam(o *types.Var) bool {
+	sig := t.pkg.info.Defs[t.decl.Name].Type().(*types.Signature)
+	for i := 0; i < sig.Params().Len(); i++ {
+		if sig.Params().At(i) == o {
+			return true
+		}
+	}
+	return sig.Recv() == o
 }
